@@ -22,6 +22,7 @@ import (
 
 	"github.com/spf13/afero"
 	"github.com/yandex/pandora/cli"
+	grpcscenario "github.com/yandex/pandora/components/guns/grpc/scenario"
 	httpscenario "github.com/yandex/pandora/components/guns/http_scenario"
 	"github.com/yandex/pandora/core"
 	"github.com/yandex/pandora/core/aggregator/netsample"
@@ -210,10 +211,14 @@ func renderReq(name string, d map[string]interface{}, idx int) reqRender {
 	return r
 }
 
-func writeSources(dir string, rows int) {
+func writeSources(dir string, rows int, special bool) {
 	for _, s := range [][2]string{{"users", "r"}, {"items", "q"}} {
 		var b strings.Builder
 		for i := 0; i < rows; i++ {
+			if special && s[0] == "users" { // values html/template escapes
+				fmt.Fprintf(&b, "%s%d<\n", s[1], i)
+				continue
+			}
 			fmt.Fprintf(&b, "%s%d\n", s[1], i)
 		}
 		if err := os.WriteFile(filepath.Join(dir, s[0]+".csv"), []byte(b.String()), 0o644); err != nil {
@@ -239,6 +244,9 @@ func scnRenderYAML(c map[string]interface{}, dir string) string {
 		}
 		if r.body != "" {
 			fmt.Fprintf(&b, "    body: '%s'\n", r.body)
+		}
+		if vt.Str(c["tmpl"]) == "html" {
+			b.WriteString("    templater:\n      type: html\n")
 		}
 		if r.pre != "" {
 			fmt.Fprintf(&b, "    preprocessor:\n      mapping:\n        row: %s\n", r.pre)
@@ -290,6 +298,9 @@ func scnRenderHCL(c map[string]interface{}, dir string) string {
 		}
 		if r.pre != "" {
 			fmt.Fprintf(&b, "  preprocessor {\n    mapping = {\n      row = \"%s\"\n    }\n  }\n", r.pre)
+		}
+		if vt.Str(c["tmpl"]) == "html" {
+			b.WriteString("  templater {\n    type = \"html\"\n  }\n")
 		}
 		switch r.capKind {
 		case "json":
@@ -476,8 +487,8 @@ func runEngineWith(eng *engine.Engine, timeout time.Duration) string {
 }
 
 // ringOf asks a fresh real provider for its first n ammo and returns the scenario names
-func ringOf(payload string, n int) ([]string, error) {
-	conf, err := buildEngineConf(poolYAML("ring", "http/scenario", "http/scenario", payload, "127.0.0.1:1", 1, 1, ""), false)
+func ringOf(payload string, n int, kind string) ([]string, error) {
+	conf, err := buildEngineConf(poolYAML("ring", kind, kind, payload, "127.0.0.1:1", 1, 1, ""), false)
 	if err != nil {
 		return nil, err
 	}
@@ -491,7 +502,12 @@ func ringOf(payload string, n int) ([]string, error) {
 		if !ok {
 			break
 		}
-		out = append(out, a.(*httpscenario.Scenario).Name)
+		switch x := a.(type) {
+		case *httpscenario.Scenario:
+			out = append(out, x.Name)
+		case *grpcscenario.Scenario:
+			out = append(out, x.Name)
+		}
 		p.Release(a)
 	}
 	cancel()
@@ -499,26 +515,48 @@ func ringOf(payload string, n int) ([]string, error) {
 	return out, nil
 }
 
-func runCase(c map[string]interface{}, tgt *scentarget.Target, root string, hcl bool, instances int, spin bool, tag string) caseObs {
+// scnTargets: the scripted targets of one worker (the gRPC one is started when the first grpc case comes along)
+type scnTargets struct {
+	http *scentarget.Target
+	grpc *scentarget.GrpcFlowTarget
+}
+
+func (t *scnTargets) close() {
+	t.http.Close()
+	if t.grpc != nil {
+		t.grpc.Close()
+	}
+}
+
+func runCase(c map[string]interface{}, tgts *scnTargets, root string, hcl bool, instances int, spin bool, tag string) caseObs {
 	id := vt.Int(c["id"])
 	dir := filepath.Join(root, fmt.Sprintf("c%d%s", id, tag))
 	if err := os.MkdirAll(dir, 0o755); err != nil {
 		panic(err)
 	}
 	defer os.RemoveAll(dir)
-	writeSources(dir, vt.Int(c["rows"]))
+	writeSources(dir, vt.Int(c["rows"]), vt.Bool(c["special"]))
 	obs := caseObs{Log: []scentarget.Entry{}, Samples: []obsSample{}, Ring: []string{}, Format: "yaml"}
+	tgt := tgts.http
 	payload := filepath.Join(dir, "payload.yaml")
 	text := scnRenderYAML(c, dir)
+	kind, addr := "http/scenario", tgt.Addr()
+	script := scentarget.Script{Kind: vt.Str(vt.Map(c["script"])["kind"]), At: vt.Int(vt.Map(c["script"])["at"])}
+	if vt.Str(c["gun"]) == "grpc" {
+		if tgts.grpc == nil {
+			tgts.grpc = scentarget.NewGrpcFlowTarget()
+		}
+		hcl, kind, addr, text = false, "grpc/scenario", tgts.grpc.Addr(), scnRenderGrpcYAML(c, dir)
+		tgts.grpc.ResetCase(script)
+	}
 	if hcl {
 		payload, text, obs.Format = filepath.Join(dir, "payload.hcl"), scnRenderHCL(c, dir), "hcl"
 	}
 	if err := os.WriteFile(payload, []byte(text), 0o644); err != nil {
 		panic(err)
 	}
-	sc := vt.Map(c["script"])
-	tgt.Reset(scentarget.Script{Kind: vt.Str(sc["kind"]), At: vt.Int(sc["at"])})
-	pool := poolYAML(fmt.Sprintf("c%d", id), "http/scenario", "http/scenario", payload, tgt.Addr(), vt.Int(c["shots"]), instances, "")
+	tgt.Reset(script)
+	pool := poolYAML(fmt.Sprintf("c%d", id), kind, kind, payload, addr, vt.Int(c["shots"]), instances, "")
 	conf, err := buildEngineConf(pool, id%2 == 1)
 	if err != nil {
 		obs.BuildErr = err.Error()
@@ -530,9 +568,12 @@ func runCase(c map[string]interface{}, tgt *scentarget.Target, root string, hcl 
 	agg := &scnRecAggregator{}
 	obs.RunErr = scnRunEngine(conf, agg, 120*time.Second)
 	obs.Log = tgt.Log()
+	if kind == "grpc/scenario" {
+		obs.Log = tgts.grpc.Log()
+	}
 	obs.Samples = agg.Samples()
 	tgt.DropConns()
-	ring, err := ringOf(payload, 30)
+	ring, err := ringOf(payload, 30, kind)
 	if err != nil {
 		obs.BuildErr = "ring: " + err.Error()
 	}
@@ -570,8 +611,8 @@ func scenarioMain(args []string) {
 		wg.Add(1)
 		go func() {
 			defer wg.Done()
-			tgt := scentarget.NewTarget()
-			defer tgt.Close()
+			tgt := &scnTargets{http: scentarget.NewTarget()}
+			defer tgt.close()
 			for j := range next {
 				results[j] = runCase(cases[j], tgt, root, *hclEvery > 0 && j%*hclEvery == 0, *inst, *spin, fmt.Sprintf("_%d", j))
 			}
@@ -585,9 +626,9 @@ func scenarioMain(args []string) {
 	// a case that hit the driver's own time limit (normal: milliseconds) is repeated once, alone
 	for j := range cases {
 		if strings.Contains(results[j].RunErr, "context deadline exceeded") {
-			tgt := scentarget.NewTarget()
+			tgt := &scnTargets{http: scentarget.NewTarget()}
 			results[j] = runCase(cases[j], tgt, root, results[j].Format == "hcl", *inst, *spin, fmt.Sprintf("_%dr", j))
-			tgt.Close()
+			tgt.close()
 		}
 	}
 	for j := range cases {
